@@ -210,6 +210,10 @@ static char *led_readchar(int c, int kmap)
 	if (c == TK_CTL('v')) {		/* literal character */
 		buf[0] = term_read();
 		buf[1] = '\0';
+		n = uc_len(buf);	/* the rest of a multi-byte character */
+		for (i = 1; i < n; i++)
+			buf[i] = term_read();
+		buf[n > 0 ? n : 1] = '\0';
 		return buf;
 	}
 	if (c == TK_CTL('k')) {		/* digraph */
